@@ -332,6 +332,9 @@ def setups(draw):
 def make_machine(ctx, tier):
     p = plan(tier)
 
+    quota = [p['examples']]
+    stop = ctx.extra.setdefault('_stop', [False])
+
     class Machine(RuleBasedStateMachine):
         def __init__(self):
             super().__init__()
@@ -340,6 +343,20 @@ def make_machine(ctx, tier):
         @initialize(setup=setups(),
                     ff=st.sampled_from([0, 0, 30, 60, 100, 150]))
         def init(self, setup, ff):
+            # a history is executed by the shard owning the hash of its
+            # set-up (all Hypothesis runs start with the same simplest
+            # examples whatever the seed); deterministic, so data generation
+            # stays reproducible
+            from nv.core import case_hash
+            if int(case_hash([setup[0], setup[1], ff]), 16) % \
+                    ctx.n_shards != ctx.shard % ctx.n_shards:
+                return
+            if quota[0] <= 0:
+                # this shard has executed its share: end the Hypothesis run
+                # (never alter what is drawn: that would be flaky generation)
+                stop[0] = True
+                raise BudgetExhausted()
+            quota[0] -= 1
             self.it = Interp(*setup)
             if ff:
                 # fast-forward so that most histories reach the end of
@@ -358,6 +375,13 @@ def make_machine(ctx, tier):
                 # of all finished histories are already recorded
                 raise BudgetExhausted()
             self.it.apply(op)
+
+        @precondition(lambda self: not self.ok())
+        @rule()
+        def idle(self):
+            # keeps Hypothesis going for histories this shard does not own
+            # or that have ended (a machine without enabled rules is an error)
+            pass
 
         @precondition(lambda self: self.ok())
         @rule(k=st.sampled_from([1, 1, 2, 3, 5, 8]))
@@ -413,9 +437,11 @@ def shard(ctx, tier, i, n):
         # after the budget ran out every rule raises BudgetExhausted, which
         # Hypothesis may report as such or wrapped (Flaky...); before that,
         # exceptions are real harness errors
-        if not ctx.out_of_time():
+        if not (ctx.out_of_time() or ctx.extra.get('_stop', [False])[0]):
             raise
-        ctx.notes.append('budget exhausted: generation stopped early')
+        if ctx.out_of_time():
+            ctx.notes.append('budget exhausted: generation stopped early')
+    ctx.extra.pop('_stop', None)
 
 
 def _shard(ctx, tier, i, n):
@@ -424,7 +450,7 @@ def _shard(ctx, tier, i, n):
     sd = derive_seed(ctx.seed, ID, i)
     run_state_machine_as_test(
         hypothesis.seed(sd)(Machine),
-        settings=settings(max_examples=p['examples'],
+        settings=settings(max_examples=p['examples'] * ctx.n_shards,
                           stateful_step_count=p['steps'], deadline=None,
                           database=None, phases=[Phase.generate],
                           suppress_health_check=list(HealthCheck),
